@@ -29,7 +29,7 @@ def showLog (l : List BOp) : String :=
 
 def octet : String := Hex.encodeTok (strBytes "application/octet-stream")
 
-def drive (u : UState) : List String → UState × String
+def driveOk (u : UState) : List String → UState × String
   | ["init", stack, hint, minc] =>
     match hint.toInt?, minc.toNat? with
     | some h, some m => ({ stack := stack, hint := h, minCh := m }, "ok")
@@ -63,7 +63,11 @@ def drive (u : UState) : List String → UState × String
     | some dig =>
       if u.stack == "wire1" then
         match commit H u.w u.sv dig with
-        | .error e => ({ u with failed := true, sv := { u.sv with poisoned := true } }, "err " ++ errName e)
+        | .error e =>
+          -- the refused PUT still reached the backend: resume (and a write of the last chunk)
+          let extra := [BOp.resume u.w.flushed] ++ (if u.w.chunk ≠ [] then [BOp.write u.w.chunk.length] else [])
+          ({ u with failed := true, sv := { u.sv with poisoned := true, buf := u.sv.buf ++ u.w.chunk }, log := u.log ++ extra },
+            "err " ++ errName e)
         | .ok (sv1, log) => ({ u with sv := sv1, log := u.log ++ log }, s!"desc {octet} {d} {u.w.size}")
       else if H u.written == dig then (u, s!"desc {octet} {d} {u.written.length}")
       else (u, "err DIGEST_INVALID")
@@ -71,10 +75,26 @@ def drive (u : UState) : List String → UState × String
     if u.stack == "wire1" then ({ u with log := [] }, "log " ++ showLog u.log) else (u, "skip")
   | ["badwrite", off, d] =>
     match off.toInt?, Hex.decodeTok d with
-    | some _, some _ => (u, "err RANGE_INVALID")
+    | some o, some _ =>
+      -- the refused PATCH still reached the backend as a resume at that offset (the upload itself goes on)
+      ({ u with log := if u.stack == "wire1" then u.log ++ [BOp.resume o] else u.log }, "err RANGE_INVALID")
     | _, _ => (u, "bad-op")
+  | ["badcommit", off, d, _] =>
+    match off.toInt?, Hex.decodeTok d with
+    | some o, some _ =>
+      ({ u with log := if u.stack == "wire1" then u.log ++ [BOp.resume o] else u.log }, "err RANGE_INVALID")
+    | _, _ => (u, "bad-op")
+  | ["get", _] => (u, "skip")
   | ["size"] =>
     if u.stack == "wire1" then (u, s!"n {u.sv.buf.length}") else (u, s!"n {u.written.length}")
   | _ => (u, "bad-op")
+
+/-- After a refused request the real writer's state is no longer the script's
+business (the property is about uploads that proceed): the model stops predicting. -/
+def drive (u : UState) (toks : List String) : UState × String :=
+  match toks with
+  | "init" :: _ => driveOk u toks
+  | "start" :: _ => driveOk u toks
+  | _ => if u.failed then (u, "skip") else driveOk u toks
 
 end OciModel.Driver.Upload
